@@ -117,6 +117,10 @@ type Proposal struct {
 	Mandatory bool    // the canonical tail scheduler fires it as soon as enabled
 	Weight    float64 // relative to 1.0 for a link head
 	Fire      func()
+	// JoinWith: in concurrent-dispatch mode this event is meant to meet a delivery into node JoinNode: it is
+	// only started in the same step as such a delivery (or on its own when no message is deliverable at all)
+	JoinWith bool
+	JoinNode uint16
 }
 
 type Action struct {
@@ -573,6 +577,7 @@ type Choice struct {
 	Key      string
 	Link     *Link
 	Proposal *Proposal
+	Affine   bool // a JoinWith proposal whose node is the destination of this step's first delivery
 }
 
 type Scheduler interface {
@@ -631,6 +636,9 @@ func (w *World) Run(s Scheduler, lim RunLimits, done func() bool) *Violation {
 		if w.Propose != nil {
 			ps := w.Propose()
 			for i := range ps {
+				if ps[i].JoinWith && !w.Serial && w.JoinProposals && len(choices) > 0 && !fair {
+					continue // waits for a delivery into its node (join loop below)
+				}
 				choices = append(choices, Choice{Key: ps[i].Key, Proposal: &ps[i]})
 			}
 		}
@@ -662,7 +670,9 @@ func (w *World) Run(s Scheduler, lim RunLimits, done func() bool) *Violation {
 			continue
 		}
 		c := choices[idx]
+		firstDest, haveDest := uint16(0), false
 		if c.Link != nil {
+			firstDest, haveDest = c.Link.To, true
 			w.record(Action{K: c.Key, C: c.Link.Q[0].Class()})
 			w.deliver(c.Link)
 		} else {
@@ -683,6 +693,13 @@ func (w *World) Run(s Scheduler, lim RunLimits, done func() bool) *Violation {
 				for i := range ps {
 					if strings.HasPrefix(ps[i].Key, "inj:") || strings.HasPrefix(ps[i].Key, "g:") {
 						continue // injections are the adversary's own, sequential decisions
+					}
+					if ps[i].JoinWith {
+						if !haveDest || ps[i].JoinNode != firstDest {
+							continue
+						}
+						more = append(more, Choice{Key: ps[i].Key, Proposal: &ps[i], Affine: true})
+						continue
 					}
 					more = append(more, Choice{Key: ps[i].Key, Proposal: &ps[i]})
 				}
